@@ -122,12 +122,19 @@ fn read_port_operation<'n>(
     in_or_out: InputOrOutput,
     operation_name: Option<&str>,
 ) -> WriterResult<SoapEnvelope> {
+    // the parts that are bound as headers cannot be the body when the body does not name its part
+    let header_parts: Vec<&str> = n
+        .children()
+        .filter(|n| n.is_element() && n.tag_name().name() == "header")
+        .filter_map(|n| n.attribute("part"))
+        .collect();
+
     // lookup the body and header messages on the port type
     let body = n
         .children()
         .find(|n| n.is_element() && n.tag_name().name() == "body")
         .map_or(Err(WriterError::NodeNotFound("body".to_string())), |n| {
-            read_body_port_message(doc, n, port_operation, in_or_out, operation_name)
+            read_body_port_message(doc, n, port_operation, in_or_out, operation_name, &header_parts)
         })?;
 
     let headers = n
@@ -145,6 +152,7 @@ fn read_body_port_message<'n>(
     port_operation: &port::SoapOperation,
     in_or_out: InputOrOutput,
     operation_name: Option<&str>,
+    header_parts: &[&str],
 ) -> WriterResult<Rc<RustNode>> {
     // for now we only support literal encoding
     let encoding = node
@@ -167,19 +175,20 @@ fn read_body_port_message<'n>(
         return Err(WriterError::NodeNotFound("operation_name".to_string()));
     };
 
-    // if there are no parts defined we assume that the message is the same as the operation name
+    // if there are no parts defined the body is the part of the message that is not bound as a header
+    let is_body_part = |(name, _): &(&XmlName, _)| !header_parts.contains(&name.as_str());
     let (_name, (rust_node, _namespace)) = match in_or_out {
         InputOrOutput::Input => port_operation
             .input
             .message
             .parts
             .iter()
-            .next()
+            .find(is_body_part)
             .ok_or(WriterError::NodeNotFound(operation_name.to_string()))?,
         InputOrOutput::Output => port_operation
             .output
             .as_ref()
-            .and_then(|o| o.message.parts.iter().next())
+            .and_then(|o| o.message.parts.iter().find(is_body_part))
             .ok_or(WriterError::NodeNotFound(operation_name.to_string()))?,
     };
 
